@@ -75,8 +75,6 @@ def operations_matrix():
                     p["style"] = style
                 if explode is not None:
                     p["explode"] = explode
-                if kind != "primitive" and style is None:
-                    continue
                 out.append((f"path/{style}/{explode}/{kind}", "3.0", p, kind))
     for explode in (True, False, None):
         for kind, schema in (("primitive", {"type": "string", "pattern": "^[ -~]{0,10}$"}), ("array", arr), ("object", obj), ("int", INT_ITEM), ("bool", {"type": "boolean"})):
